@@ -1589,7 +1589,7 @@ def emit_module(mod, entry, replace, drop, roots, info_path):
             if n in ginit:
                 gdecl.append('extern %s %s;' % (ct, cn))
                 gdef.append('%s %s = %s;' % (ct, cn, ginit[n]))
-            elif n.startswith('@_ZTVN10__cxxabiv1') or (n.startswith('@_ZTI') and g.is_decl):
+            elif n.startswith('@_ZTVN10__cxxabiv1') or (n.startswith('@_ZTI') and g.is_decl) or n == '@__dso_handle':
                 gdecl.append('extern %s %s;' % (ct, cn))
                 gdef.append('%s %s;' % (ct, cn))
             else:
